@@ -272,6 +272,14 @@ func stripForGeneration(obj map[string]any) map[string]any {
 
 // normalizeMeta mimics the ObjectMeta round trip of the real server: empty
 // maps and lists in metadata are omitted (omitempty).
+// dropNullStatus mimics structural-schema pruning: a null for the (non-nullable)
+// status object is dropped before the object is stored.
+func dropNullStatus(obj map[string]any) {
+	if v, ok := obj["status"]; ok && v == nil {
+		delete(obj, "status")
+	}
+}
+
 func normalizeMeta(m map[string]any) {
 	for _, k := range []string{"ownerReferences", "finalizers", "managedFields"} {
 		if l, ok := m[k].([]any); ok && len(l) == 0 {
@@ -293,6 +301,7 @@ func normalizeMeta(m map[string]any) {
 
 func (s *Server) create(d *ResourceDef, ns string, in map[string]any) (map[string]any, *apiErr) {
 	obj := CopyMap(in)
+	dropNullStatus(obj)
 	m := metaOf(obj)
 	normalizeMeta(m)
 	name, _ := m["name"].(string)
@@ -360,6 +369,7 @@ func (s *Server) update(d *ResourceDef, ns, name, sub string, in map[string]any,
 		return nil, errNotFound(d, name)
 	}
 	obj := CopyMap(in)
+	dropNullStatus(obj)
 	m := metaOf(obj)
 	normalizeMeta(m)
 	if bn, _ := m["name"].(string); bn != "" && bn != name {
